@@ -143,6 +143,117 @@ func main() {
 			fmt.Sprintf("G closure %d %d", x+3000, x+3001), fmt.Sprintf("G many %d true str 7 seven 3 true 1099511627776 5", (x+4000)%100), "G f1", "G noargs", "G done"}
 		ps = append(ps, bProgram{"go-statement-shapes", src, exp})
 	}
+	// 1c. go statements in a helper that returns at once (scalar arguments only, top-level
+	// callee), and large aggregates passed by value and overwritten by the parent
+	{
+		m := rng.Range(6, 12)
+		src := fmt.Sprintf(`package main
+
+import "sync"
+
+var (
+	wg   sync.WaitGroup
+	mu   sync.Mutex
+	seen [%d]int
+	seen2 [%d]int
+	bad  int
+)
+
+func worker(i int, j int64, f float64, b bool) {
+	mu.Lock()
+	if i >= 0 && i < len(seen) {
+		seen[i]++
+	} else {
+		bad++
+	}
+	if j != int64(i)*2 || f != float64(i)+0.5 || b != (i%%2 == 0) {
+		bad++
+	}
+	mu.Unlock()
+	wg.Done()
+}
+
+//go:noinline
+func spawn(i int) { go worker(i, int64(i)*2, float64(i)+0.5, i%%2 == 0) }
+
+//go:noinline
+func spawnInts(i int) { go workerInts(i, i*3+1) }
+
+func workerInts(i, c int) {
+	mu.Lock()
+	if i >= 0 && i < len(seen) && c == i*3+1 {
+		seen2[i]++
+	} else {
+		bad++
+	}
+	mu.Unlock()
+	wg.Done()
+}
+
+//go:noinline
+func filler(i int) int {
+	var pad [8]int
+	for k := range pad {
+		pad[k] = i * 1000
+	}
+	return pad[3]
+}
+
+type Big struct {
+	a [16]int64
+	s string
+}
+
+func sum(b Big, want int64) {
+	var t int64
+	for _, v := range b.a {
+		t += v
+	}
+	mu.Lock()
+	if t != want || b.s != "first" {
+		bad++
+	}
+	mu.Unlock()
+	wg.Done()
+}
+
+//go:noinline
+func spawnBig(i int) {
+	var b Big
+	for k := range b.a {
+		b.a[k] = int64(i)
+	}
+	b.s = "first"
+	go sum(b, int64(i)*16)
+	for k := range b.a {
+		b.a[k] = -7
+	}
+	b.s = "second"
+}
+
+func main() {
+	n := len(seen)
+	wg.Add(3 * n)
+	x := 0
+	for i := 0; i < n; i++ {
+		spawn(i)
+		x += filler(i)
+		spawnInts(i)
+		x += filler(i + 7)
+		spawnBig(i + 1)
+	}
+	wg.Wait()
+	ok := true
+	for i := 0; i < n; i++ {
+		if seen[i] != 1 || seen2[i] != 1 {
+			ok = false
+		}
+	}
+	println("G each-once", ok, "bad", bad, x >= 0)
+}
+`, m, m)
+		ps = append(ps, bProgram{"go-statement-helper", src, []string{"G each-once true bad 0 true"}})
+	}
 	// 2. Mutex-protected counter + WaitGroup
 	ps = append(ps, bProgram{"mutex-counter", fmt.Sprintf(`package main
 
